@@ -580,6 +580,10 @@ func fileNameKind(k int) string {
 		return "f/"
 	case 6:
 		return "."
+	case 7:
+		return "my%20f" // a name is data, never a format string
+	case 8:
+		return "100%"
 	}
 	return "f"
 }
